@@ -281,6 +281,29 @@ func cmdCheck(args []string) int {
 			results = append(results, r)
 		}
 	}
+	// call-site sweeps: every call of a swept callee in the package must be covered by a callsite clause
+	for _, sd := range s.specs.Sweeps {
+		if sd.Prop != *prop || *only != "" {
+			continue
+		}
+		covered := map[string]bool{}
+		for _, vc := range vcs {
+			for k := range vc.coveredCallsites {
+				covered[k] = true
+			}
+		}
+		sites := s.sweepSites(sd)
+		pc := &Contract{Key: "sweep(" + strings.Join(sd.Callees, ",") + ")", Pkg: sd.Pkg}
+		pvc := newFnVC(s, nil, pc)
+		for _, site := range sites {
+			r := &OblResult{Func: sd.Pkg + "::" + pc.Key, Name: "sweep:" + site.key, Info: "every call of " + site.callee + " in the package is covered by a call-site requirement", Pos: site.pos, vc: pvc, Verdict: "unsat", Solver: "sweep", Trivial: true}
+			if !covered[site.key] {
+				r.Verdict = "uncovered"
+				r.Output = "call site " + site.key + " at " + site.pos + " is not covered by any callsite clause of a contract for property " + *prop
+			}
+			results = append(results, r)
+		}
+	}
 	var wg sync.WaitGroup
 	sem := make(chan struct{}, 16)
 	for _, r := range results {
